@@ -134,13 +134,22 @@ def parse_file_unit(res):
 class Grammar:
     """A: pyparsing element - parseString(...) raises ParseException or returns a result with one of the listed shapes"""
 
-    def __init__(self, name, shapes, log):
-        self.name, self.shapes, self.log = name, shapes, log
+    def __init__(self, name, shapes, log, fixed=None):
+        self.name, self.shapes, self.log, self.fixed = name, shapes, log, fixed
 
     def sym_method(self, ex, mname, args, kw):
         if mname != "parseString":
             raise Unsupported("pyparsing." + mname)
         self.log.append(("call", self.name, args[0], kw.get("parseAll")))
+        if self.fixed is not None:
+            # whether this grammar accepts the line was decided before the code ran (it is a fact about the line, not
+            # about the order in which the code consults the grammars)
+            i = self.fixed.get(self.name)
+            if i is not None:
+                self.log.append(("ok", self.name, i))
+                return Result(self.shapes[i]())
+            self.log.append(("fail", self.name))
+            raise PyRaise("ParseException", self.name)
         for i, sh in enumerate(self.shapes):
             if ex.choice():
                 self.log.append(("ok", self.name, i))
@@ -180,9 +189,24 @@ def parse_line_unit(isa):
         def run():
             log = []
             ex.extra["log"] = log
-            fields = dict(comment=Grammar("comment", [cmt], log), label=Grammar("label", lab, log), directive=Grammar("directive", dr, log))
+            # which grammars accept the line is a property of the LINE: decided up front.  A comment line is accepted by no other
+            # grammar; a label such as '.L.str.1:' is also accepted by the directive grammar - it is a label all the same.
+            shapes = {"comment": [cmt], "llvm": [lambda: {"comment": ["#", "LLVM-MCA-BEGIN"]}], "label": lab, "directive": dr}
+            dec = {}
+            for nm in ("comment", "llvm", "label", "directive"):
+                dec[nm] = None
+                if nm == "llvm" and isa == "x86":
+                    continue
+                if nm in ("label", "directive") and (dec["comment"] is not None or dec["llvm"] is not None):
+                    continue
+                for i_ in range(len(shapes[nm])):
+                    if ex.choice():
+                        dec[nm] = i_
+                        break
+            ex.extra["accepts"] = dec
+            fields = dict(comment=Grammar("comment", [cmt], log, dec), label=Grammar("label", lab, log, dec), directive=Grammar("directive", dr, log, dec))
             if isa != "x86":
-                fields["llvm_markers"] = Grammar("llvm", [lambda: {"comment": ["#", "LLVM-MCA-BEGIN"]}], log)
+                fields["llvm_markers"] = Grammar("llvm", shapes["llvm"], log, dec)
             parser = SObj(cls, **fields)
             line = OpaqueStr("the line")
             ex.extra["line"] = line
@@ -212,12 +236,13 @@ def parse_line_unit(isa):
             oks = [e[1] for e in log if e[0] == "ok"]
             calls_ok = all(e[2] is p.extra["line"] and e[3] is True for e in log if e[0] == "call")
             g = [calls_ok, f["_line"] is p.extra["line"], ex.eq_term(f["_line_number"], SNum(LN, True))]
+            acc = p.extra["accepts"]
             kind = None
-            if "comment" in oks or "llvm" in oks:
+            if acc["comment"] is not None or acc["llvm"] is not None:
                 kind = "comment"
-            elif "label" in oks:
+            elif acc["label"] is not None:
                 kind = "label"
-            elif "directive" in oks:
+            elif acc["directive"] is not None:
                 kind = "directive"
             elif "instruction" in oks:
                 kind = "instruction"
@@ -229,26 +254,20 @@ def parse_line_unit(isa):
                 g.append(f["_comment_id"] is not None)
             if kind == "label":
                 g.append(f["_label_id"] == ".L1")
-                shape = [e[2] for e in log if e[0] == "ok" and e[1] == "label"][0]
-                g.append((f["_comment_id"] is not None) == (shape == 1))
+                g.append((f["_comment_id"] is not None) == (acc["label"] == 1))
             if kind == "directive":
                 d = f["_directive_id"]
-                shape = [e[2] for e in log if e[0] == "ok" and e[1] == "directive"][0]
-                want = dr[shape]()["directive"]
+                want = dr[acc["directive"]]()["directive"]
                 g.append(isinstance(d, SObj) and d.fields.get("_name") == want["name"] and d.fields.get("_parameters") == want.get("parameters", []))
                 g.append((f["_comment_id"] is not None) == ("comment" in want))
             if kind == "instruction":
                 r = p.extra["iresult"].fields
                 g.append(f["_mnemonic"] == r["_mnemonic"] and f["_operands"] is r["_operands"] and f["_comment_id"] == r["_comment_id"])
-            # priority: a later grammar is consulted only if all earlier ones failed
-            order = ["comment"] + (["llvm"] if isa != "x86" else []) + ["label", "directive", "instruction"]
-            called = [e[1] for e in log if e[0] == "call"]
-            g.append(called == order[: len(called)] or (isa != "x86" and called[:2] == ["comment", "llvm"]))
             return all(g)
 
         def exc_ok(p):
             log = p.extra["log"]
-            return p.outcome[1] == "ValueError" and ("fail", "instruction") in log and not any(e[0] == "ok" for e in log)
+            return p.outcome[1] == "ValueError" and ("fail", "instruction") in log and all(v is None for v in p.extra["accepts"].values())
 
         n = res.add_paths(paths, post, exc_ok=exc_ok, kind="classification")
         res.note(f"{isa}: {len(paths)} outcome combinations, {n} returning")
